@@ -661,6 +661,13 @@ def _histories(ck, rng, T, add, H, det_os):
                 h2 = h.with_rules(rules, h.label + "; " + label)
                 with Guard(ck, "history-retry", h2.describe):
                     one(h2, clean, "retry")
+    for h in H.ndef_histories(rng, T):
+        with Guard(ck, "history-ndef", h.describe):
+            clean = one(h, None, "ndef")
+            for rules, label in H.ndef_tamper_rules(rng, T, clean):
+                h2 = h.with_rules(rules, h.label + "; " + label)
+                with Guard(ck, "history-ndef-tamper", h2.describe):
+                    one(h2, clean, "ndef-tamper")
     for line, reply, kind, status in H.card_cases(rng, T):
         add("card-mirror", line, reply, ("card", line), True,
             "mirror:card:%s:%s" % (kind, "no-answer" if status is None else status.hex()))
